@@ -224,14 +224,3 @@ Definition wf_fixed_entry (P : problem) (e : oentry) : Prop :=
   | Some (KFixed ex) => exists q, eval_dur (p_statics P) (snd (key_of e)) ex = Some q /\ snd e = Some q
   | _ => False
   end.
-
-Definition wf_fixed_entryb (P : problem) (e : oentry) : bool :=
-  match kind_of P (fst (key_of e)) with
-  | Some KInst => match snd e with None => true | Some _ => false end
-  | Some (KFixed ex) =>
-      match eval_dur (p_statics P) (snd (key_of e)) ex, snd e with
-      | Some q, Some d => Qeq_bool q d && Qeq_bool (Qred d) d && (Zpos (Qden d) =? Zpos (Qden (Qred d)))%Z && (Qnum d =? Qnum (Qred d))%Z
-      | _, _ => false
-      end
-  | _ => false
-  end.
